@@ -177,7 +177,7 @@ def path_bytes(ctx, job, box):
 
 def jobs(tier):
     js = []
-    gs = [(2, 1), (2, 2)] if tier == 'quick' else [(1, 1), (2, 1), (1, 2), (2, 2), (3, 2)]
+    gs = [(2, 1), (2, 2), (1, 3)] if tier == 'quick' else [(1, 1), (2, 1), (1, 2), (2, 2), (3, 2), (1, 3), (2, 3)]
     for g in gs:
         for spec in sweep.ops(tier, g[0], g[1]):
             js.append(Job('op/%s/%dx%d' % (spec[0], g[0], g[1]), path_op, opspec=spec, geom=g, prop=PROP))
@@ -214,7 +214,7 @@ META = {
     'functions': ['ByteParser::feed', 'ByteParser::select_other_charset', 'Parser::feed', 'Parser::new::{closure#0}',
                   'ParserListener::{escape,basic,csi}_dispatch', 'all 37 ParserListener methods of Screen', 'Screen::resize',
                   'display', 'Screen::new'],
-    'bounds': '(a) every operation of the sweep from symbolic well-formed states on {2x1,2x2} (thorough + {1x1,1x2,3x2}), '
+    'bounds': '(a) every operation of the sweep from symbolic well-formed states on {2x1,2x2,1x3} (thorough + {1x1,1x2,3x2,2x3}), '
               'numeric arguments absent or 0..=9999, resize targets 1..=size+2, each followed by display(); (b) strings of '
               '3 (thorough 4) unconstrained symbolic code points and shaped families (CSI/OSC bodies, 22-digit parameter, '
               'designators, wide and combining prefixes) through Parser<Screen> on a fresh 2x2 (and 1x1) screen, both modes, '
